@@ -23,7 +23,9 @@ def sh(cmd, cwd=None, timeout=1800):
 
 def main():
     seed = os.path.abspath(sys.argv[1])
-    tiers = sys.argv[2:] or ['quick']
+    tiers = [a for a in sys.argv[2:] if not a.startswith('--')] or ['quick']
+    if '--no-check' in sys.argv:
+        tiers = []
     meta = json.load(open(os.path.join(seed, 'meta.json')))
     prop = meta['property']
     res = {'seed': seed, 'property': prop}
@@ -34,27 +36,7 @@ def main():
     rc, out = sh(f'git -C /repo worktree add -q --detach {wt} HEAD')
     assert rc == 0, out
     try:
-        demo_dir = (meta.get('demo_dir') or '').strip()
-        demo_dir = re.sub(r'^/tmp/wt/C\d\d/?', '', demo_dir).strip('/')
-        dst = os.path.join(wt, demo_dir) if demo_dir else wt
-        os.makedirs(dst, exist_ok=True)
-        copied = []
-        for f in os.listdir(seed):
-            if f in ('patch.diff', 'meta.json') or f.endswith('.md'):
-                continue
-            src = os.path.join(seed, f)
-            if os.path.isdir(src):
-                shutil.copytree(src, os.path.join(dst, f)); copied.append(f)
-            else:
-                shutil.copy(src, dst); copied.append(f)
-        cmd = meta['demo_cmd']
-        cmd = re.sub(r'/tmp/wt/C\d\d', wt, cmd)
-        cmd = cmd.replace(seed, dst)
-        cmd = re.sub(r'/tmp/seeds/C\d\d/\d', dst, cmd)
-        res['demo_cmd'] = cmd
-        rc, out = sh(cmd, cwd=wt)
-        res['demo_without_change'] = 'pass' if rc == 0 else 'FAIL'
-        res['demo_without_tail'] = out[-400:] if rc != 0 else ''
+        # the pinned suite with the change, before any demonstration file is present
         rc, out = sh(f'git apply {seed}/patch.diff', cwd=wt)
         res['applies'] = rc == 0
         if rc != 0:
@@ -64,8 +46,34 @@ def main():
             res['suite_with_change'] = 'pass' if rc == 0 else 'FAIL'
             if rc != 0:
                 res['suite_tail'] = out[-600:]
+            sh(f'git apply -R {seed}/patch.diff', cwd=wt)
+        demo_dir = (meta.get('demo_dir') or '').strip()
+        demo_dir = re.sub(r'^/tmp/wt/C\d\d/?', '', demo_dir).strip('/')
+        if demo_dir == '.':
+            demo_dir = ''
+        dst = os.path.join(wt, demo_dir) if demo_dir else wt
+        os.makedirs(dst, exist_ok=True)
+        for f in os.listdir(seed):
+            if f in ('patch.diff', 'meta.json', 'eval.json') or f.endswith('.md'):
+                continue
+            src = os.path.join(seed, f)
+            if os.path.isdir(src):
+                shutil.copytree(src, os.path.join(dst, f))
+            else:
+                shutil.copy(src, dst)
+        cmd = meta['demo_cmd']
+        cmd = re.sub(r'/tmp/wt/C\d\d', wt, cmd)
+        cmd = cmd.replace(seed, dst)
+        cmd = re.sub(r'/tmp/seeds/C\d\d/\d', dst, cmd)
+        res['demo_cmd'] = cmd
+        rc, out = sh(cmd, cwd=wt)
+        res['demo_without_change'] = 'pass' if rc == 0 else 'FAIL'
+        res['demo_without_tail'] = out[-400:] if rc != 0 else ''
+        if res['applies']:
+            sh(f'git apply {seed}/patch.diff', cwd=wt)
             rc, out = sh(cmd, cwd=wt)
             res['demo_with_change'] = 'fail' if rc != 0 else 'PASSES'
+            res['demo_with_tail'] = out[-300:] if rc != 0 else ''
     finally:
         sh(f'git -C /repo worktree remove --force {wt}')
         shutil.rmtree(wt, ignore_errors=True)
@@ -76,7 +84,8 @@ def main():
             rc, out = sh(f'git -C /repo apply {seed}/patch.diff')
             assert rc == 0, out
             try:
-                rc, out = sh(f'/verif/check {prop} {tier}', cwd='/verif', timeout=7200)
+                vd = os.environ.get('VERIF_DIR', '/verif')
+                rc, out = sh(f'{vd}/check {prop} {tier}', cwd=vd, timeout=7200)
             finally:
                 sh('git -C /repo checkout -- . && git -C /repo clean -fdq')
             viol = [l for l in out.splitlines() if l.startswith('VIOLATION')]
